@@ -20,6 +20,8 @@ const (
 	opCompactRange
 	opReopen
 	opReaderReopen
+	opPlantLock  // create <table>.lock for table A mod n, as a compactor killed after taking its table locks leaves it
+	opClearLocks // remove the planted locks again
 )
 
 type c07Op struct {
@@ -48,6 +50,9 @@ func genHistory(t *rapid.T, minOps, maxOps int, delWeight int) c07Case {
 		// range that reaches the bottom leaves nothing and the list only shrinks
 		o.Pool, o.MaxRefs, o.MaxLogs, o.DelWeight = SafePool[:2], 2, 0, 5
 	}
+	// a sixth of the histories: leftover table locks of a killed compactor appear and disappear;
+	// compactions then do nothing, or less - but whatever they do must not change the view
+	locks := rapid.IntRange(0, 5).Draw(t, "leftoverLocks") == 4
 	for i := 0; i < n; i++ {
 		op := c07Op{}
 		k := rapid.IntRange(0, 19).Draw(t, "opK")
@@ -68,6 +73,14 @@ func genHistory(t *rapid.T, minOps, maxOps int, delWeight int) c07Case {
 			op.Kind = opReopen
 		default:
 			op.Kind = opReaderReopen
+		}
+		if locks && op.Kind != opAdd {
+			switch rapid.IntRange(0, 5).Draw(t, "lockK") {
+			case 0, 1:
+				op = c07Op{Kind: opPlantLock, A: rapid.IntRange(0, 7).Draw(t, "lockedTable")}
+			case 2:
+				op = c07Op{Kind: opClearLocks}
+			}
 		}
 		c.Ops = append(c.Ops, op)
 	}
@@ -109,6 +122,16 @@ func runHistory(sig string, c c07Case, o *Obs, hooks *histHooks) error {
 	tr := &Tracker{Dir: dir}
 	nCompactions, midOverTomb, coversLogDel, deletes := 0, 0, 0, 0
 	exportOK := reftable.VerifExportAvailable
+	planted := map[string]bool{} // lock files the harness created (leftovers of a killed compactor)
+	everPlanted, compactionsUnderLocks := false, 0
+	clearLocks := func() {
+		for p := range planted {
+			os.Remove(p)
+		}
+		planted = map[string]bool{}
+	}
+	defer clearLocks()
+	lockOK := func(err error) bool { return err == nil || (len(planted) > 0 && err == reftable.ErrLockFailure) }
 
 	for i, op := range c.Ops {
 		what := fmt.Sprintf("step %d", i)
@@ -147,12 +170,12 @@ func runHistory(sig string, c c07Case, o *Obs, hooks *histHooks) error {
 			if len(before) == 0 {
 				continue
 			}
-			if err := st.CompactAll(nil); err != nil {
+			if err := st.CompactAll(nil); !lockOK(err) {
 				return Failf(sig+"/compact-error", "%s: CompactAll(nil): %v", what, err)
 			}
 			what += " (CompactAll)"
 		case opAutoCompact:
-			if err := st.AutoCompact(); err != nil {
+			if err := st.AutoCompact(); !lockOK(err) {
 				return Failf(sig+"/compact-error", "%s: AutoCompact: %v", what, err)
 			}
 			what += " (AutoCompact)"
@@ -166,10 +189,27 @@ func runHistory(sig string, c c07Case, o *Obs, hooks *histHooks) error {
 				first, last = last, first
 			}
 			ok, err := st.VerifCompactRange(first, last, nil)
-			if err != nil || !ok {
+			if len(planted) > 0 && lockOK(err) {
+				ok = true // a compaction that meets a leftover lock may give up
+			}
+			if err != nil && !lockOK(err) || !ok {
 				return Failf(sig+"/compact-error", "%s: compaction of tables [%d,%d] of %d: ok=%v err=%v", what, first, last, n, ok, err)
 			}
 			what += fmt.Sprintf(" (compact [%d,%d] of %d)", first, last, n)
+		case opPlantLock:
+			if len(before) == 0 {
+				continue
+			}
+			p := dir + "/" + before[op.A%len(before)] + ".lock"
+			if f, err := os.OpenFile(p, os.O_CREATE|os.O_EXCL|os.O_WRONLY, 0644); err == nil {
+				f.Close()
+				planted[p] = true
+				everPlanted = true
+			}
+			continue
+		case opClearLocks:
+			clearLocks()
+			continue
 		case opReopen:
 			st.Close()
 			st, err = open()
@@ -198,6 +238,9 @@ func runHistory(sig string, c c07Case, o *Obs, hooks *histHooks) error {
 			for _, ev := range tr.Update(after, pending) {
 				if !ev.IsAdd {
 					nCompactions++
+					if len(planted) > 0 {
+						compactionsUnderLocks++
+					}
 					if ev.tombstoneOverOlder() {
 						midOverTomb++
 					}
@@ -214,6 +257,7 @@ func runHistory(sig string, c c07Case, o *Obs, hooks *histHooks) error {
 		}
 	}
 	// a fresh handle agrees, and nothing but the listed tables is left
+	clearLocks()
 	st.Close()
 	st, err = open()
 	if err != nil {
@@ -240,6 +284,8 @@ func runHistory(sig string, c c07Case, o *Obs, hooks *histHooks) error {
 	o.ClassIf(midOverTomb > 0, "midrange-compaction-over-tombstone")
 	o.ClassIf(coversLogDel > 0, "compaction-covers-log-deletion")
 	o.ClassIf(c.Auto, "auto-compaction-on")
+	o.ClassIf(everPlanted, "leftover-table-locks-planted")
+	o.ClassIf(compactionsUnderLocks > 0, "compaction-ran-next-to-a-leftover-table-lock")
 	o.ClassIf(c.Cfg.Hash == 2, "sha256")
 	o.ClassIf(tr.Broken, "tracking-lost")
 	o.Count("compactions", nCompactions)
